@@ -73,6 +73,8 @@ def Impl.mstep (I : Impl K V) (regs : Nat → I.σ) : MOp K V → Outcome ((Nat 
     -- `hh != h`: merging a heap into itself does nothing
     if d = s then .ok (regs, .unit)
     else obind (I.merge (regs d) (regs s)) fun p => .ok (update (update regs d p.1) s p.2, .unit)
+  -- `hh, ok := H.(*binomial[K, V])` / `H.(*fibonacci[K, V])` with `ok = false`: the body of the `if` is skipped
+  | .mergeOther _ => .ok (regs, .unit)
 
 def Impl.runFrom (I : Impl K V) : (Nat → I.σ) → List (MOp K V) → List (Outcome (Out K V))
   | _, [] => []
